@@ -172,12 +172,19 @@ pub fn run(ctx: &mut Ctx) {
         }
     }
     // ---- QUIC: the value is the one of the completed handshake ---------------------------------------------------
-    let n_quic = if ctx.thorough() { 40 } else { 8 };
+    let n_quic = if ctx.thorough() { 42 } else { 9 };
     for k in 0..n_quic {
         ctx.stat("live_quic_handshakes");
         let before = verif::hooks::STATE.lock().unwrap().rule_inputs.len();
         let window = if k % 2 == 0 { 1 << 20 } else { 4096 };
-        let mut cl = match H3Client::connect(ep.addr, Some("localhost"), &[b"h3"], window, Duration::from_secs(3)) {
+        // every third connection names a host the endpoint does not know, every third none at all (both are served with
+        // the first main host's certificate on QUIC): the random is the handshake's whatever the SNI
+        let sni = match k % 3 {
+            0 => Some("localhost"),
+            1 => Some("unknown.verif.test"),
+            _ => None,
+        };
+        let mut cl = match H3Client::connect(ep.addr, sni, &[b"h3"], window, Duration::from_secs(3)) {
             Ok(c) => c,
             Err(e) => {
                 ctx.oracle_failure("quic_handshake_failed", &format!("{:?}", e));
@@ -189,7 +196,7 @@ pub fn run(ctx: &mut Ctx) {
         let id = cl.request("CONNECT", None, "_check", None, &[], false);
         cl.wait(Duration::from_secs(2), |c| id.and_then(|i| c.streams.get(&i)).map(|s| s.status.is_some()).unwrap_or(false));
         let status = id.map(|i| cl.stream(i).status).unwrap_or(None);
-        let desc = format!("quiche client #{} (handshake random {})", k, hex(&truth));
+        let desc = format!("quiche client #{} with SNI {:?} (handshake random {})", k, sni, hex(&truth));
         match wait_rule_input(before) {
             None => ctx.oracle_failure("no_rule_input", &format!("{}: the handshake completed but the connection rules were never consulted", desc)),
             Some((_, None)) => ctx.oracle_failure("random_absent", &format!("{}: the client random was reported absent on QUIC", desc)),
